@@ -122,12 +122,40 @@ type stored struct {
 	sigType int
 }
 
+// keyring holds the clients' key pairs for the length of one run: a client
+// keeps using the same key objects (the same memory) for every operation, as a
+// real one does, so whatever a call does to the key it was handed is met by the
+// next call.
+var keyring = map[int]*keyPair{}
+
+type keyPair struct {
+	pub  x25519.PublicKey
+	priv x25519.PrivateKey
+}
+
+// heldSecret: blinding secrets are long-lived too.
+var secrets = map[[2]uint64][]byte{}
+
+func heldSecret(seed uint64, n int) []byte {
+	k := [2]uint64{seed, uint64(n)}
+	if b, ok := secrets[k]; ok {
+		return b
+	}
+	b := refmodel.Expand(seed, "blind-secret", n)
+	secrets[k] = b
+	return b
+}
+
 func clientKeys(i int) (x25519.PublicKey, x25519.PrivateKey) {
+	if kp := keyring[i]; kp != nil {
+		return kp.pub, kp.priv
+	}
 	priv := x25519.PrivateKey(refmodel.Expand(uint64(9000+i), "x25519-client", 32))
 	pub, err := priv.PublicKey()
 	if err != nil {
 		panic(err)
 	}
+	keyring[i] = &keyPair{pub, priv}
 	return pub, priv
 }
 
@@ -138,12 +166,14 @@ func pubForm(pub x25519.PublicKey, form int) any {
 	case 1:
 		return pub
 	case 2:
-		return curve25519.Curve25519PublicKey(append([]byte(nil), pub...))
+		return curve25519.Curve25519PublicKey(pub)
 	default:
-		return []byte(append([]byte(nil), pub...))
+		return []byte(pub)
 	}
 }
 
+// privForm hands the client's long-lived key to the library in one of the
+// accepted forms, without copying it first.
 func privForm(priv x25519.PrivateKey, form int) any {
 	switch form % 3 {
 	case 0:
@@ -151,7 +181,7 @@ func privForm(priv x25519.PrivateKey, form int) any {
 	case 1:
 		return priv
 	default:
-		return []byte(append([]byte(nil), priv...))
+		return []byte(priv)
 	}
 }
 
@@ -175,6 +205,8 @@ func wrap(ct []byte) (*encrypted_leaseset.EncryptedLeaseSet, bool) {
 
 func (World) Execute(t *testing.T, s *engine.Script) *engine.Outcome {
 	o := engine.NewOutcome()
+	clear(keyring)
+	clear(secrets)
 	faults := map[int64]*engine.Fault{}
 	for i := range s.Faults {
 		faults[s.Faults[i].At] = &s.Faults[i]
@@ -476,7 +508,7 @@ func dayString(unix int64) string {
 
 func blind(t *testing.T, o *engine.Outcome, idx int, op *engine.Op) {
 	identSeed, sig := uint64(op.N[0]), int(op.N[1])
-	secret := refmodel.Expand(uint64(op.N[2]), "blind-secret", int(op.N[3]))
+	secret := heldSecret(uint64(op.N[2]), int(op.N[3]))
 	crypto, excess, dateMode, argZone := refmodel.EncX25519, 0, 0, 0
 	if len(op.N) >= 14 {
 		crypto, excess, dateMode, argZone = int(op.N[10]), int(op.N[11]), int(op.N[12]), int(op.N[13])
